@@ -41,6 +41,11 @@ def _built_comprehensions(f) -> dict[str, ast.AST]:
     return out
 
 
+_SCAN_EXCEPTIONS = {
+    "Sequence.declared_channels": "starts from the channels of the schedule, which already reflect every regular call; only the deferred DMM/SLM configurations have to be added from _to_build_calls",
+}
+
+
 def run(E: Engine, rep: Report, tier: str) -> dict:
     E.prepare_summaries()
     P = E.P
@@ -197,7 +202,49 @@ def run(E: Engine, rep: Report, tier: str) -> dict:
     stores = {l.target[2]: l.value for l in S(E, sr).logged("store") if l.target is not None and l.target[0] == "attr" and l.target[1] == ("name", "seq")}
     ok = unobj(stores.get("_register", ("?",))) == ("name", "reg") and is_(unobj(stores.get("_qids", ("?",))), "set(reg.qubit_ids)") is not None
     rep.check(ok, "MAP", "Sequence._set_register|register-and-ids-updated", "the built sequence gets the concrete register and its ids", f"_set_register no longer updates both the register and the qubit-id set of the built sequence (stores: { {k: sh(v, 40) for k, v in stores.items()} })", E.where(sr))
+    # every Global channel (DMM channels included) gets the resolved register's qubits as targets: the slot rewrite is
+    # conditioned on the addressing only
+    slot_stores = [l for l in S(E, sr).logged("store") if l.target is not None and l.target[0] == "idx" and unobj(l.target[1])[0] == "attr" and unobj(l.target[1])[2] == "slots"]
+    ok = bool(slot_stores) and all(all(mentions(x, "addressing") for x in sym.conj_of(l.cond)) and any(is_(x, "Q_c.addressing == 'Global'") is not None for x in sym.conj_of(l.cond)) for l in slot_stores)
+    rep.check(ok, "MAP", "Sequence._set_register|every-global-channel-retargeted", "slots of every channel with Global addressing are rewritten (no other exclusion)", f"_set_register rewrites the targets of Global channels only under `{[sh(l.cond, 120) for l in slot_stores]}`: a Global channel that is skipped (e.g. a DMM) keeps the reserved ids of the mappable register as targets", E.where(sr))
+    # a search of the call record by call name covers the regular *and* the deferred (to-build) calls: a sequence
+    # that became parametrized half-way has its earlier configuration calls in _calls and the later ones in _to_build_calls
+    n_scan = 0
+    for g in E.P.all_functions():
+        if not g.module.name.startswith("pulser.sequence") or g.kind == "overload" or ("_to_build_calls" not in norm(g.node) and "_calls" not in norm(g.node)):
+            continue
+        seen_it: set = set()
+        Sg_ = S(E, g, inline=False)
+        cands = [(l.loops[-1], l.cond) for l in Sg_.log if l.loops] + [(t[3][0][0], t[3][0][1]) for l in Sg_.log for top in (l.value, l.target) if top is not None for t in sym.subterms(top) if t[0] == "comp" and len(t[3]) == 1]
+        for it_, cond_ in cands:
+            if not (mentions(it_, "_calls") or mentions(it_, "_to_build_calls")) or it_ in seen_it:
+                continue
+            el = ("elem", it_, 0)
+            by_name = any(x[0] == "cmp" and x[1] in ("Eq", "NotEq", "In", "NotIn") and ("attr", el, "name") in (x[2], x[3]) for c_ in sym.conj_of(cond_) for x in ([c_] if c_[0] != "or" else list(c_[1:])))
+            if not by_name:
+                continue
+            seen_it.add(it_)
+            n_scan += 1
+            both = any(t[0] == "attr" and t[2] == "_calls" for t in sym.subterms(it_)) and mentions(it_, "_to_build_calls")
+            if not both and g.short in _SCAN_EXCEPTIONS:
+                rep.excepted("FLOW", f"{g.short}|call-record-scan-covers-both-lists|{sh(it_, 40)}", _SCAN_EXCEPTIONS[g.short], E.where(g))
+                continue
+            rep.check(both, "FLOW", f"{g.short}|call-record-scan-covers-both-lists|{sh(it_, 40)}", "searches _calls and _to_build_calls", f"{g.short} looks for calls by name in `{sh(it_, 80)}` only: configuration calls stored in the other list (made before / after the sequence became parametrized) are not seen", E.where(g))
+    if n_scan < 3:
+        rep.error(f"only {n_scan} by-name scans of the call record found (expected is_in_eom_mode, _validate_and_adjust_pulse, switch_device, ...)")
     rep.floor("MAP", 3)
+    # every sequence returned by build() is a freshly constructed one (`type(seq)(register=..., device=...)` replayed
+    # from the record), never the shallow `copy.copy(self)`, which shares the schedule, the call record and the phase
+    # references with the template
+    bd = E.method(SEQ, "build")
+    rets = [l for l in S(E, bd).logged("return") if l.value is not None and l.fn == bd.short]
+    if not rets:
+        raise AnalysisError("anchor: Sequence.build has no return")
+    for i_, l in enumerate(rets):
+        v = unobj(l.value)
+        fresh = v[0] == "call" and is_(v[1], "type(Q_s)") is not None and {k for k, _x in v[3]} >= {"register", "device"}
+        shallow = is_(v, "copy.copy(self)") is not None or is_(v, "copy(self)") is not None or v == ("name", "self")
+        rep.check(fresh and not shallow, "OWN", f"Sequence.build|returns-a-fresh-sequence|return{i_}", "the returned sequence is constructed anew and replayed", f"Sequence.build returns `{sh(v, 80)}` under `{sh(l.cond, 120)}`: " + ("a shallow copy shares _schedule, _calls and _basis_ref with the template, so later calls on either sequence change both" if shallow else "not a sequence constructed by type(seq)(register=..., device=...)"), E.where(bd, l.node))
     # "all qubits" of a phase shift without explicit targets are the register's qubits (the phase bookkeeping of a
     # mappable register still lists every reserved id after the register was resolved)
     psf = E.method(SEQ, "_phase_shift")
